@@ -504,7 +504,18 @@ def _num(v) -> Fraction | None:
         return None
 
 
+def effective_transform(case: dict[str, Any]) -> tuple[str, str]:
+    """(acceleration, relaxation factor) actually applied by the MDA of the case."""
+    m = case["mda"]
+    cls = m["cls"]
+    applied = cls in SOLVER_CLASSES or cls in ("MDAGSNewton", "MDASequential") or (
+        cls == "MDAChain" and m.get("inner") in SOLVER_CLASSES
+    )
+    return (m["accel"], m["omega"]) if applied else ("NoTransformation", "1")
+
+
 def case_class(case: dict[str, Any]) -> str:
+    """Stable classification of a case (prefix of the violation keys)."""
     m = case["mda"]
     cls = m["cls"]
     if cls == "MDAChain":
@@ -513,8 +524,12 @@ def case_class(case: dict[str, Any]) -> str:
         return f"{cls}:{m['method']}"
     if cls == "MDASequential":
         cls += "/" + "+".join(m["seq"])
-    relax = "relax" if Fraction(m["omega"]) != 1 else "norelax"
-    return f"{cls}:{m['accel']}:{relax}"
+    accel, omega = effective_transform(case)
+    if accel != "NoTransformation" and Fraction(omega) != 1:
+        # an acceleration fed by GEMSEO's two-step over-relaxation: classified by the acceleration only
+        return f"relaxed-acceleration:{accel}"
+    relax = "relax" if Fraction(omega) != 1 else "norelax"
+    return f"{cls}:{accel}:{relax}"
 
 
 def sqrt_up(q: Fraction) -> Fraction:
